@@ -438,7 +438,7 @@ fn check_site(i: &Instruction) -> Vec<(String, String)> {
     }
 }
 
-/// sites visited for every tree of depth 2 (quick: the first 3; thorough: all)
+/// sites visited for every tree of depth 2 (quick: the first; thorough: all)
 const DEEP_SITES: &[&str] = &["Delay(names=0,qubits=1)", "Pulse.wfparam", "DefGate.matrix", "Delay(names=0,qubits=0)", "Gate.param", "DefFrame.attr", "DefWaveform", "DefCal.body"];
 
 fn site_names() -> &'static [String] {
@@ -514,7 +514,7 @@ pub static C04: PropDef = PropDef {
     id: "C04",
     level: "exploration",
     engine: "sweep",
-    rule: "instructions built with the public constructors: literal reals/integers (incl. -2.0, 1e21, 1e-7, i64::MIN/MAX) in every classical operand kind, 15 (thorough 33) expressions (negative and complex numbers, nested negation, variables, references) in DELAY x {0,1,2 frame names} x {0,1,2 fixed, variable qubits}, gate parameters, SET-*/SHIFT-*, RAW-CAPTURE, waveform parameters, frame attributes, DEFWAVEFORM, DEFCAL / DEFCAL MEASURE / DEFCIRCUIT bodies, DEFGATE matrices; CALL with every immediate form; one form of every other instruction; all single instructions and all ordered pairs over a reduced list; every expression tree of depth <= 1 of the C03 alphabet (693) at every one of the 30 expression-bearing sites, and every tree of depth 2 (2.4 M) at 3 (thorough 8) sites, compared by skeleton equality plus guarded value equality of each expression; 42 placeholder / placeholder-free twins. non-trivial = instruction containing an expression or literal (distinct by debug text)",
+    rule: "instructions built with the public constructors: literal reals/integers (incl. -2.0, 1e21, 1e-7, i64::MIN/MAX) in every classical operand kind, 15 (thorough 33) expressions (negative and complex numbers, nested negation, variables, references) in DELAY x {0,1,2 frame names} x {0,1,2 fixed, variable qubits}, gate parameters, SET-*/SHIFT-*, RAW-CAPTURE, waveform parameters, frame attributes, DEFWAVEFORM, DEFCAL / DEFCAL MEASURE / DEFCIRCUIT bodies, DEFGATE matrices; CALL with every immediate form; one form of every other instruction; all single instructions and all ordered pairs over a reduced list; every expression tree of depth <= 1 of the C03 alphabet (693) at every one of the 30 expression-bearing sites, and every tree of depth 2 (2.4 M) at the most context-sensitive site (DELAY without frame names; thorough: at 8 sites), compared by skeleton equality plus guarded value equality of each expression; 42 placeholder / placeholder-free twins. non-trivial = instruction containing an expression or literal (distinct by debug text)",
     assumptions: &["equivalence = == after replacing every expression by its value at two generic points rounded to 12 significant digits (DESIGN §4 C04); in the exhaustive expression-site space: == of the instruction with every expression blanked, plus value equality of each expression pair at the C03 points under the C03 guards"],
     run: |ctx| {
         let s = singles(ctx.tier);
@@ -555,7 +555,7 @@ pub static C04: PropDef = PropDef {
         for ex in &sp.all1 {
             site_case(ctx, ex, None, &mut shrinks);
         }
-        let deep = &DEEP_SITES[..ctx.tier.pick(3, DEEP_SITES.len())];
+        let deep = &DEEP_SITES[..ctx.tier.pick(1, DEEP_SITES.len())];
         ctx.bound("depth2_sites", json!(deep));
         sp.depth2(|d| {
             let ex = sp.build(&d);
